@@ -21,8 +21,9 @@ class Ob:
     """one obligation: a harness function explored over all paths within its stated bound"""
 
     def __init__(self, name, fn, bound, params=None, expect=(), rlimit=30_000_000, max_paths=200000,
-                 max_decisions=3000, deadline_s=600, max_violations=1, weight=1, cap=None, collision_free=False):
+                 max_decisions=3000, deadline_s=600, max_violations=1, weight=1, cap=None, collision_free=False, uniform=None):
         self.cap = cap
+        self.uniform = uniform
         self.collision_free = collision_free
         self.name = name
         self.fn = fn
@@ -76,7 +77,7 @@ def _worker(args):
         ob = obs[obname]
         known = {k["class"]: k for k in known_active if k.get("obligation") in (obname, None) or obname.startswith(k.get("obligation", "\0"))}
         ex = core.Explorer(rlimit=ob.rlimit, max_paths=ob.max_paths, max_decisions=ob.max_decisions,
-                           deadline_s=ob.deadline_s, max_violations=ob.max_violations, known=known, seed=seed, cap=ob.cap, collision_free=ob.collision_free)
+                           deadline_s=ob.deadline_s, max_violations=ob.max_violations, known=known, seed=seed, cap=ob.cap, collision_free=ob.collision_free, uniform=ob.uniform)
         params = ob.params
 
         count = [0]
@@ -98,7 +99,7 @@ def _worker(args):
             if ob.cap is not None and "WidthExceeded" in str(e):
                 # the code needs the true value of something tracked modulo 2**cap: redo with exact integers
                 ex = core.Explorer(rlimit=ob.rlimit, max_paths=ob.max_paths, max_decisions=ob.max_decisions,
-                                   deadline_s=ob.deadline_s, max_violations=ob.max_violations, known=known, seed=seed, cap=None, collision_free=ob.collision_free)
+                                   deadline_s=ob.deadline_s, max_violations=ob.max_violations, known=known, seed=seed, cap=None, collision_free=ob.collision_free, uniform=ob.uniform)
                 ex.stats.notes.append("width cap %d exceeded; re-run with exact integers" % ob.cap)
                 ex.run(fn)
             else:
